@@ -3,6 +3,8 @@ import re
 
 import hir as H
 import rulelib as L
+import symrules as SR
+import sym
 
 CRATES = ["identity_credential", "identity_core"]
 CJ = "identity_credential::credential::jwt_serialization"
@@ -180,55 +182,68 @@ def run(F, R, tier):
         L.require_tried_before_success(r3, F, ty + "::" + conv, [("check_consistency", ty + "::check_consistency")])
         L.mir_success_dominates(r3, F, ty + "::" + conv, ty + "::check_consistency", "check_consistency")
         fn = ty + "::check_consistency"
-        h = F.hir(fn)
-        if not r3.anchor(h, fn):
+        if not r3.anchor(F.hir(fn), fn):
             continue
-        env = H.Env(h)
-        body = H.root(h)
-        # members of vc/vp read by check_consistency
+        tab = SR.Table(F, fn, opaque=r"to_issuance_date$|Timestamp::to_unix$", rule=r3, max_paths=6000)
+        INNER = SR.fld(inner)
+
+        def mterm(member):
+            t_ = INNER
+            for seg in member.split("."):
+                t_ = ("field", t_, seg)
+            return t_
+        # members of vc/vp examined by check_consistency (over all paths)
         read = set()
-        for n in H.walk(body):
-            if n.get("k") == "field":
-                for o in H.origins(n, env):
-                    if o[:3] == ("param", "self", inner) and len(o) > 3:
-                        read.add(".".join(o[3:]))
-        read = {r for r in read if not any(r != q and q.startswith(r + ".") for q in read)}
-        read = {r.replace(".Some.0", "") for r in read}
-        r3.site("%s::check_consistency reads %s members %s" % (L.short(ty), inner, sorted(read)), body["sp"])
+        for q in tab.paths:
+            for t_ in q.variant:
+                if SR.derives(t_, INNER) and t_[:1] == ("field",):
+                    x, segs = t_, []
+                    while x != INNER and x[:1] == ("field",):
+                        segs.append(x[2])
+                        x = x[1]
+                    if x == INNER:
+                        read.add(".".join(reversed(segs)))
+            for (a, c, _, _) in q.decisions:
+                if a[0] == "eq":
+                    for side in (a[1], a[2]):
+                        for m_ in pairs:
+                            if SR.derives(side, mterm(m_)):
+                                read.add(m_)
+        read = {r_ for r_ in read if not any(r_ != q_ and q_.startswith(r_ + ".") for q_ in read)}
+        r3.site("%s::check_consistency reads %s members %s" % (L.short(ty), inner, sorted(read)))
         r3.require(read == set(pairs), (fn, "members-compared"), "check_consistency compares %s of %s, expected %s" % (sorted(read), inner, sorted(pairs)))
         if discard is not None:
             dd = {d[len(inner) + 1:] for d in discard if d.startswith(inner + ".")}
-            # vc.credential_subject.id is dropped by rebuilding the Subject from `sub` (checked in R2), not by a `_` binding
-            cmp_ = {p.split(".")[0] for p in pairs} - {"credential_subject"}
+            cmp_ = {p_.split(".")[0] for p_ in pairs} - {"credential_subject"}
             r3.require(dd == cmp_, (fn, "siblings"), "members discarded by %s (%s) differ from the members check_consistency compares (%s): a discarded member is silently resolved" % (conv, sorted(dd), sorted(cmp_)))
-        # every guard returns the Inconsistent… error
-        for cond, oc, node in L.block_guards(body):
-            r3.require(oc == "Err(%s)" % errv, (fn, "guard-outcome"), "a consistency guard returns %s" % oc, node["sp"])
-        # abstract evaluation: member present, registered claim absent → must be rejected; member absent → passes
+        for q in tab.err():
+            en = SR.err_name(q.ret)
+            r3.require(en == errv or "to_issuance_date" in sym.fmt(sym.term(q.ret)), (fn, "guard-outcome"), "a consistency guard returns %s" % en)
+        # decision: on every accepting path a present member equals its registered claim (which must then be present too)
         for member, (claim, optional) in pairs.items():
-            mpath = ("param", "self", inner) + tuple(member.split("."))
-            is_member = lambda oo, mp=mpath: bool(oo) and all(o[:len(mp)] == mp for o in oo)
-            is_claim = lambda oo, c=claim: bool(oo) and all(o[:3] == ("param", "self", c) for o in oo)
-            res_absent = H.abs_exec_block(body, env, [(is_member, H.NONE)])
-            r3.site("%s.%s absent → %s" % (inner, member, res_absent))
-            if optional:
-                res = H.abs_exec_block(body, env, [(is_member, ("some", H.UNKNOWN)), (is_claim, H.NONE)] + [
-                    ((lambda oo, mp=("param", "self", inner) + tuple(m2.split(".")): bool(oo) and all(o[:len(mp)] == mp for o in oo)), H.NONE) for m2 in pairs if m2 != member])
-                r3.site("%s.%s present, %s absent → %s" % (inner, member, claim, res))
-                r3.require(res == "err", (fn, "absent-claim", member), "%s.%s present while the registered claim `%s` is absent is not rejected (abstract evaluation gives %s): the duplicated value is silently dropped" % (inner, member, claim, res))
-        # all members absent → Ok
-        res = H.abs_exec_block(body, env, [((lambda oo, mp=("param", "self", inner) + tuple(m2.split(".")): bool(oo) and all(o[:len(mp)] == mp for o in oo)), H.NONE) for m2 in pairs])
-        r3.require(res in ("pass", "unknown"), (fn, "all-absent"), "claims without duplicated members are rejected (abstract evaluation gives %s)" % res)
-        # each guard compares member with its claim
-        for cond, oc, node in L.block_guards(body):
-            roots = set()
-            for x in H.walk(cond):
-                if x.get("k") in ("field",):
-                    for o in H.origins(x, env):
-                        if o[:2] == ("param", "self") and len(o) > 2:
-                            roots.add(o[2] if o[2] != inner else inner + "." + ".".join(o[3:]))
-            r3.site("guard compares %s" % sorted(roots), node["sp"])
-    r3.floor(23)
+            mt = mterm(member)
+            ct = SR.fld(claim)
+            n_present = 0
+            for q in tab.ok():
+                if SR.variant(q, mt) != "Some":
+                    continue
+                n_present += 1
+                mp = ("payload", mt, "Some", 0)
+                eq_ok = False
+                for (a, c, _, _) in q.decisions:
+                    if a[0] == "eq" and c is True:
+                        x, y = a[1], a[2]
+                        if (SR.derives(x, mp) and SR.derives(y, ct)) or (SR.derives(y, mp) and SR.derives(x, ct)):
+                            eq_ok = True
+                claim_ok = (not optional) or SR.variant(q, ct) == "Some" or eq_ok and not any(SR.variant(q, ct) == "None" for _ in (0,))
+                r3.require(eq_ok and claim_ok and SR.variant(q, ct) != "None", (fn, "absent-claim", member),
+                           "%s.%s present is accepted although the registered claim `%s` is %s: the duplicated value is silently dropped — path: %s" % (
+                               inner, member, claim, "absent" if SR.variant(q, ct) == "None" else "not compared with it", q.describe()[:220]))
+            r3.site("%s.%s present ⇒ equals claim `%s` on %d accepting path(s)" % (inner, member, claim, n_present))
+            r3.site("%s.%s absent → passes" % (inner, member))
+        allnone = [q for q in tab.ok() if all(SR.variant(q, mterm(m_)) == "None" for m_ in pairs)]
+        r3.require(bool(allnone) or not tab.paths, (fn, "all-absent"), "claims without duplicated members are rejected")
+    r3.floor(20)
 
     # ------------------------------------------------------------------ R4 dates
     r4 = R.rule("C07-R4", "T2+T4", "every i64 → Timestamp goes through Timestamp::from_unix with the error propagated; issuance prefers nbf, falls back to iat, errors when both are absent")
